@@ -3,7 +3,8 @@
    (control octet, function, IIN, a three-form object grammar), observations -> text lines in the
    canonical order of /verif/harness/msched.rs: sorted by (time, stream), stream 0 = callbacks of
    the master task (conn/closed/cb/info/txlink), 1 = fragments written, 2 = completions of user
-   requests, 3 = now.  Model-only observations (MsOUnsolIgnored, MsOSleep) are not printed. *)
+   requests, 3 = now.  Model-only observations (MsOUnsolIgnored, MsOSleep, MsORestartSeen, MsOCleared, MsOAssoc,
+   MsOLinkEnd) are not printed. *)
 open Model
 open Driver
 
@@ -107,7 +108,7 @@ let render (o : ms_obs) : (int * int * string) option =
   | MsOConn x -> Some (t x, 0, Printf.sprintf "conn %d" (t x))
   | MsOClosed (x, e) -> Some (t x, 0, Printf.sprintf "closed %d %s" (t x) (err_text e))
   | MsOTx (x, b) -> Some (t x, 1, Printf.sprintf "tx %d %s" (t x) (hex b))
-  | MsOTxLink (x, a) -> Some (t x, 0, Printf.sprintf "txlink %d %d" (t x) (idx a))
+  | MsOTxLink (x, a, _) -> Some (t x, 0, Printf.sprintf "txlink %d %d" (t x) (idx a))
   | MsOCb (x, a, rt, n) -> Some (t x, 0, Printf.sprintf "cb %d %d %s %d" (t x) (idx a) (rtype_text rt) (int_of_n n))
   | MsOStart (x, a, k, fc, s) ->
     Some (t x, 0, Printf.sprintf "info %d %d start %s %d %d" (t x) (idx a) (ttype_text k) (int_of_n fc) (int_of_n s))
@@ -121,7 +122,7 @@ let render (o : ms_obs) : (int * int * string) option =
   | MsORes (x, tok, Some e) -> Some (t x, 2, Printf.sprintf "res %d %d err %s" (t x) (int_of_n tok) (err_text e))
   | MsONow x -> Some (t x, 3, Printf.sprintf "now %d" (t x))
   | MsOStall x -> Some (max_int, 4, "stall")
-  | MsOUnsolIgnored _ | MsOSleep _ -> None
+  | MsOUnsolIgnored _ | MsOSleep _ | MsORestartSeen _ | MsOCleared _ | MsOAssoc _ | MsOLinkEnd _ -> None
 
 (* ---- the engine ------------------------------------------------------------------------------------------- *)
 let fuel = lazy (nat_of_int 300000)
